@@ -4,12 +4,23 @@
 //! strings, frames, stacks, libraries, pids, tids and start times repeat and collide.
 use crate::common::*;
 
-/// formats of the harness's three static-schema marker types (u = unique-string, s = other string
+/// formats of the harness's static-schema marker types (u = unique-string, s = other string
 /// kind, n = number); mirrored by `PT.staticSchema` in the Lean model
-pub const STATIC_FORMATS: [&str; 3] = ["u", "unsnu", ""];
+pub const STATIC_FORMATS: [&str; 4] = ["u", "unsnu", "", "sunsn"];
+
+/// is the format letter of the `mtype` op a string-kind format? (u String, U|s Url, P FilePath, Z SanitizedString)
+pub fn is_string_format(ch: char) -> bool {
+    matches!(ch, 'u' | 'U' | 's' | 'P' | 'Z')
+}
+/// all format letters: the 14 `MarkerFieldFormat`s (+ the two aliases of the first round)
+pub const FORMAT_LETTERS: &str = "uUsPZDTSMCNBpind";
 
 const STRS: [&str; 12] = ["a", "b", "main", "libfoo", "0x10", "0x1f", "f", "sym1", "", "0x2a", "Other", "libbar"];
-const LIBS: [&str; 7] = ["libfoo", "libbar", "main", "a", "v1/libfoo", "v2/libfoo", "x/a"];
+// `#<variant>`: same name and path, different debug id / code id / arch / debug name (two builds of one library)
+const LIBS: [&str; 13] = [
+    "libfoo", "libbar", "main", "a", "v1/libfoo", "v2/libfoo", "x/a", "libfoo#d1", "libfoo#d2", "libfoo#c1", "libfoo#a1",
+    "libfoo#n1", "v1/libfoo#d1c2",
+];
 const CATS: [(&str, u64); 5] = [("Other", 12), ("Regular", 5), ("JS", 8), ("Other", 5), ("StCat", 6)];
 const SUBS: [&str; 4] = ["Other", "x", "y", "JIT"];
 const PIDS: [u64; 6] = [1, 1, 2, 9, 10, 100];
@@ -199,6 +210,28 @@ impl<'a> G<'a> {
         let rel = *self.rng.pick(&[0u64, 16, 1000]);
         let (preg, lreg) = (self.procs[p].reg.clone(), self.libs[l].clone());
         self.push(format!("map {preg} {lreg} {start} {} {rel}", start + len));
+        // kernel mappings (global, consulted before the process's): over the same small address pool, so that they
+        // shadow / are shadowed by process mappings of the same range
+        if self.rng.chance(1, 5) {
+            let kl = self.a_lib();
+            let ks = *self.rng.pick(&[16u64, 32, 48, 64, 100]);
+            let klen = *self.rng.pick(&[1u64, 16, 32]);
+            let klreg = self.libs[kl].clone();
+            let krel = *self.rng.pick(&[0u64, 8, 1000]);
+            self.push(format!("kmap {klreg} {ks} {} {krel}", ks + klen));
+            if self.rng.chance(1, 3) {
+                let ku = if self.rng.chance(3, 4) { ks } else { 32 };
+                self.push(format!("kunmap {ku}"));
+            }
+        }
+        // remove_lib_mapping / clear_process_lib_mappings: at a start address that is (usually) mapped, so that a
+        // later absolute-address frame falls into the hole and the removed library may stay unused
+        if self.rng.chance(1, 4) {
+            let s = if self.rng.chance(3, 4) { start } else { *self.rng.pick(&[16u64, 32, 48, 64, 100, 17]) };
+            self.push(format!("unmap {preg} {s}"));
+        } else if self.rng.chance(1, 12) {
+            self.push(format!("clearmaps {preg}"));
+        }
     }
     fn add_symtab(&mut self) {
         let l = self.a_lib();
@@ -379,17 +412,29 @@ impl<'a> G<'a> {
     fn add_mtype(&mut self) -> usize {
         let r = self.reg("mt");
         let c = self.a_cat();
-        let fmt = *self.rng.pick(&["-", "u", "s", "n", "us", "nu", "unsnu", "uu", "sn"]);
+        // half of the schemas: a fixed small word; the other half: 1-6 letters over all 14 formats, with the
+        // string-kind formats other than String (FilePath, SanitizedString, Url) over-represented next to String
+        let fmt: String = if self.rng.chance(1, 2) {
+            self.rng.pick(&["-", "u", "s", "n", "us", "nu", "unsnu", "uu", "sn", "uP", "Zu", "PZU", "uDZTu"]).to_string()
+        } else {
+            let n = 1 + self.pick_idx(6);
+            (0..n)
+                .map(|_| {
+                    let pool: &[u8] = if self.rng.chance(1, 2) { b"uPZUu" } else { FORMAT_LETTERS.as_bytes() };
+                    pool[self.rng.below(pool.len() as u64) as usize] as char
+                })
+                .collect()
+        };
         let name = format!("rt{}", self.mtypes.len());
         self.push(format!("mtype {r} {} {c} {fmt}", hx(&name)));
-        self.mtypes.push((r, if fmt == "-" { String::new() } else { fmt.to_string() }));
+        self.mtypes.push((r, if fmt == "-" { String::new() } else { fmt }));
         self.mtypes.len() - 1
     }
     fn add_marker(&mut self) {
         let t = self.any_thread();
         let treg = self.threads[t].reg.clone();
         let (spec, fmt) = if self.rng.chance(1, 2) {
-            let k = self.pick_idx(3);
+            let k = self.pick_idx(STATIC_FORMATS.len());
             (format!("st:{k}"), STATIC_FORMATS[k].to_string())
         } else {
             let i = if !self.mtypes.is_empty() && self.rng.chance(2, 3) { self.pick_idx(self.mtypes.len()) } else { self.add_mtype() };
@@ -398,10 +443,12 @@ impl<'a> G<'a> {
         let name = self.a_string();
         let mut args = Vec::new();
         for ch in fmt.chars() {
-            if ch != 'n' {
+            if is_string_format(ch) {
                 args.push(self.a_string());
             }
         }
+        // all four `MarkerTiming` variants (no suffix = Instant, as in the first round's corpus)
+        let spec = format!("{spec}{}", self.rng.pick(&["", ":i", ":v", ":s", ":e", ":v", ":e"]));
         let r = self.reg("m");
         self.push(format!("marker {r} {treg} {spec} {name} {}", args.join(" ")).trim_end().to_string());
         self.threads[t].markers.push(r.clone());
@@ -835,6 +882,123 @@ pub fn fixed_cases(_tier: Tier) -> Vec<Case> {
             "mstack t2 m1 -",
         ],
     ));
+    // all four MarkerTiming variants, all 14 MarkerFieldFormats (string-kind formats other than String next to
+    // String fields: the `== MarkerFieldFormat::String` tests of add_marker and of the serializer must agree)
+    v.push(case(
+        "marker-timings-and-formats",
+        &[
+            &format!("process p1 1 0 {a}"),
+            "thread t1 p1 1 0 1",
+            &format!("string s1 {a}"),
+            &format!("string s2 {b}"),
+            &format!("string s3 {}", hx("/a/b.rs")),
+            &format!("cat c1 {} 8", hx("JS")),
+            &format!("mtype mt1 {} c1 uUPZDTSMCNBpid", hx("rt0")),
+            &format!("mtype mt2 {} c1 PuZ", hx("rt1")),
+            "marker m1 t1 rt:mt1:v s1 s1 s2 s3 s2",
+            "marker m2 t1 rt:mt2:e s2 s3 s1 s2",
+            "marker m3 t1 rt:mt2:s s2 s2 s2 s3",
+            "marker m4 t1 st:3:v s1 s3 s2 s1",
+            "marker m5 t1 st:3 s1 s1 s1 s1",
+            "marker m6 t1 st:1:e s1 s1 s2 s2",
+            "marker m7 t1 st:2:s s3",
+            "flabel f1 t1 s1 o 0",
+            "stack k1 t1 f1 -",
+            "mstack t1 m2 k1",
+            "mstack t1 m4 k1",
+            "sample t1 1 k1 0",
+        ],
+    ));
+    // remove_lib_mapping / clear_process_lib_mappings between absolute-address frames: the same address resolves
+    // to the library, then to nothing, then (after a new mapping) to another library; `libbar` is mapped and
+    // unmapped without ever being used
+    v.push(case(
+        "unmap-between-frames",
+        &[
+            &format!("process p1 1 0 {a}"),
+            "thread t1 p1 1 0 1",
+            &format!("lib l1 {}", hx("libfoo")),
+            &format!("lib l2 {}", hx("libbar")),
+            &format!("lib l3 {}", hx("x/a")),
+            "map p1 l1 16 48 0",
+            "map p1 l2 64 96 0",
+            "faddr f1 t1 ip 20 o 0",
+            "unmap p1 64",
+            "unmap p1 16",
+            "faddr f2 t1 ip 20 o 0",
+            "faddr f3 t1 ip 70 o 0",
+            "map p1 l3 16 48 8",
+            "faddr f4 t1 ip 20 o 0",
+            "clearmaps p1",
+            "faddr f5 t1 ra 21 o 0",
+            "unmap p1 16",
+            // a kernel mapping shadows a process mapping of the same range, then is removed
+            "map p1 l1 16 48 0",
+            "kmap l2 16 32 4",
+            "faddr f6 t1 ip 20 o 0",
+            "faddr f7 t1 ip 40 o 0",
+            "kunmap 16",
+            "faddr f8 t1 ip 20 o 0",
+            "stackframes k2 t1 f6 f7 f8",
+            "sample t1 2 k2 0",
+            "stackframes k1 t1 f1 f2 f3 f4 f5",
+            "sample t1 1 k1 0",
+        ],
+    ));
+    // libraries that agree in name and path and differ only in debug id / code id / arch / debug name, all used on
+    // one thread through mappings and relative addresses
+    v.push(case(
+        "libs-differing-only-in-ids",
+        &[
+            &format!("process p1 1 0 {a}"),
+            "thread t1 p1 1 0 1",
+            &format!("lib l1 {}", hx("libfoo")),
+            &format!("lib l2 {}", hx("libfoo#d1")),
+            &format!("lib l3 {}", hx("libfoo#d2")),
+            &format!("lib l4 {}", hx("libfoo#c1")),
+            &format!("lib l5 {}", hx("libfoo#a1")),
+            &format!("lib l6 {}", hx("libfoo#n1")),
+            &format!("lib l7 {}", hx("libfoo#d1")),
+            "map p1 l3 4096 8192 0",
+            "frel f1 t1 ip l6 100 o 0",
+            "frel f2 t1 ip l2 100 o 0",
+            "faddr f3 t1 ip 4196 o 0",
+            "frel f4 t1 ip l1 100 o 0",
+            "frel f5 t1 ip l4 100 o 0",
+            "frel f6 t1 ip l5 100 o 0",
+            "frel f7 t1 ip l7 100 o 0",
+            &format!("nsym n1 t1 l4 96 8 {a}"),
+            &format!("nsym n2 t1 l5 96 8 {b}"),
+            "stackframes k1 t1 f1 f2 f3 f4 f5 f6 f7",
+            "sample t1 1 k1 0",
+        ],
+    ));
+    // more than 256 rows in every per-thread table and in the category / subcategory lists (index types narrowed
+    // to u8 would wrap here; the 65 536 boundary is out of reach of the list-based judge)
+    {
+        let mut ops: Vec<String> = vec![format!("process p1 1 0 {a}"), "thread t1 p1 1 0 1".into()];
+        ops.push(format!("lib l1 {}", hx("libfoo")));
+        ops.push(format!("cat c1 {} 3", hx("Bulk")));
+        let n = 300;
+        for i in 0..n {
+            ops.push(format!("string s{i} {}", hx(&format!("fn{i}"))));
+            match i % 3 {
+                0 => ops.push(format!("flabel f{i} t1 s{i} S:{}:3:{} 0", hx("Bulk"), hx(&format!("sub{i}")))),
+                1 => ops.push(format!("flabel f{i} t1 s{i} C:{}:{} 0", hx(&format!("cat{i}")), i % 14)),
+                _ => {
+                    ops.push(format!("nsym n{i} t1 l1 {} 4 {}", 16 * i, hx(&format!("sym{i}"))));
+                    ops.push(format!("fsym f{i} t1 rel ip l1 {} s{i} n{i} - - - 0 o 0", 16 * i + 1));
+                }
+            }
+        }
+        let all: Vec<String> = (0..n).map(|i| format!("f{i}")).collect();
+        ops.push(format!("stackframes k1 t1 {}", all.join(" ")));
+        ops.push("sample t1 1 k1 0".into());
+        ops.push(format!("marker m1 t1 st:0 s299 s298"));
+        ops.push("mstack t1 m1 k1".into());
+        let refs: Vec<&str> = ops.iter().map(|s| s.as_str()).collect();
+        v.push(case("bulk-300-rows", &refs));
+    }
     // rejected uses
     v.push(case(
         "rejected-uses",
